@@ -179,11 +179,11 @@ theorem kinv_start (s : St) (k : Nat) (r : Rec) (force : Bool) (h : KInv s) (hk 
         simp only []
         -- the new instance
         have hci : CI (modG s1 r.gen fun x =>
-            { x with insts := x.insts ++ [{ rid := r.id, data := r.data, waitOn := x.last }], last := some y.insts.length }) := by
+            { x with insts := x.insts ++ [{ rid := r.id, data := r.data, waitOn := x.last, cancelled := s.ctx == some 0 }], last := some y.insts.length }) := by
           apply ci_modG s1 r.gen _ h1.chain
           intro y' hy'
           rw [hy] at hy'; simp at hy'; subst hy'
-          exact inv_spawn y r.id r.data (h1.chain r.gen y hy)
+          exact inv_spawnC y r.id r.data _ (h1.chain r.gen y hy)
         refine ⟨hci, ?_, ?_, ?_, ?_⟩
         rotate_left 3
         · intro k' r' hk' hce
@@ -197,7 +197,7 @@ theorem kinv_start (s : St) (k : Nat) (r : Rec) (force : Bool) (h : KInv s) (hk 
           · subst hkk; simp at hk'; subst hk'
             obtain ⟨y0, hy0, hyk⟩ := h1.genKey k' r hk1
             rw [hy] at hy0; simp at hy0; subst hy0
-            exact ⟨{ y with insts := y.insts ++ [{ rid := r.id, data := r.data, waitOn := y.last }],
+            exact ⟨{ y with insts := y.insts ++ [{ rid := r.id, data := r.data, waitOn := y.last, cancelled := s.ctx == some 0 }],
                             last := some y.insts.length }, by simp [gens_modG, hy], hyk⟩
           · simp [hkk] at hk'
             obtain ⟨y0, hy0, hyk⟩ := h1.genKey k' r' hk'
